@@ -182,6 +182,7 @@ def create_gantt_chart_gif(
         frames_dir = gif_path.replace(".gif", "") + "_frames"
     path = pathlib.Path(frames_dir)
     path.mkdir(exist_ok=True)
+    _remove_old_frames(path)
     frames_dir = str(path)
     create_gantt_chart_frames(
         frames_dir,
@@ -250,6 +251,7 @@ def create_gantt_chart_video(
         frames_dir = video_path.replace(f".{extension}", "") + "_frames"
     path = pathlib.Path(frames_dir)
     path.mkdir(exist_ok=True)
+    _remove_old_frames(path)
     frames_dir = str(path)
     create_gantt_chart_frames(
         frames_dir,
@@ -379,6 +381,17 @@ def create_video_from_frames(
     imageio.mimsave(
         gif_path, resized_images, fps=fps  # type: ignore[arg-type]
     )
+
+
+def _remove_old_frames(frames_dir: pathlib.Path) -> None:
+    """Removes the frames that an earlier call left in the directory.
+
+    With ``remove_frames=False`` (or after a call that failed midway) the
+    frames of an earlier, longer history would otherwise end up at the end
+    of the new GIF or video.
+    """
+    for frame in frames_dir.glob("frame_*.png"):
+        frame.unlink()
 
 
 def resize_image_to_macro_block(
